@@ -229,9 +229,12 @@ Qed.
 
 Theorem restores_outside_sound e : restores_outside e = true -> restoring e.
 Proof.
-  unfold restores_outside, restoring. intros H I mask img p Hp.
-  destruct e; try discriminate. destruct e2; try discriminate. destruct e3; try discriminate.
-  apply restore_outside; auto.
+  unfold restoring. induction e; cbn [restores_outside]; intros H I mask img p Hp; try discriminate.
+  - reflexivity.
+  - apply orb_true_iff in H as [H|H].
+    + destruct e2; try discriminate. destruct e3; try discriminate. apply restore_outside; auto.
+    + apply andb_true_iff in H as [H1 H3]. cbn [eval].
+      destruct (truthy I (eval I mask e2 img p)); [apply IHe1|apply IHe3]; auto.
 Qed.
 
 (* every term of a generated list: one rejected term breaks the premise *)
